@@ -311,7 +311,7 @@ def parse_global(ln):
     init = None
     if p.peek()[0] != 'eof' and p.peek()[1] != ',':
         init = p.value(ty)
-    M.globals[name] = dict(name=name, kind='var', ty=ty, init=init, const=' constant ' in ln)
+    M.globals[name] = dict(name=name, kind='var', ty=ty, init=init, const=' constant ' in ln, tls=' thread_local' in ln)
 
 def parse_sig(p):
     p.skip_attrs()
